@@ -42,3 +42,23 @@ Print Assumptions C13_failing_test_output_complete.
 Theorem C13_reinstall_is_undone : forall t s, cur (bstep_apply true t (bstep_apply true t s BReinstall) BStop) = false.
 Proof. exact reinstall_is_undone. Qed.
 Print Assumptions C13_reinstall_is_undone.
+
+(* Attribution over a whole run of tests: the runner's output is the concatenation, in test order, of one segment per test,
+   and a test's segment is a function of that test's own writes and result events only (nothing a test writes can end up in
+   another test's segment, whatever the sequence of outcomes, with and without --buffer) … *)
+From ZT Require Import BufferSeq.
+Theorem C13_output_attributed_per_test : forall buffer ts,
+  Forall (fun it => closed (snd it)) ts ->
+  flatten_log (log (run_tests buffer ts)) = flat_map (out_of buffer) ts.
+Proof. exact output_is_per_test. Qed.
+Print Assumptions C13_output_attributed_per_test.
+
+(* … where, with --buffer, the segment of a passing / skipped / expected-failure test is empty and the segment of a test whose
+   first result event is a failure or error is its header followed by all it wrote, in order. *)
+Theorem C13_segments : forall t,
+  (forall toks r, reports r = false -> out_of true (t, BStart :: map BWrite toks ++ [BRes r; BStop]) = []) /\
+  (forall pre r rest, reports r = true -> Forall is_mid rest ->
+     out_of true (t, BStart :: map BWrite pre ++ BRes r :: rest ++ [BStop]) =
+     (0, t) :: map (fun k => (1, k)) pre ++ flat_map (vis t) rest).
+Proof. intros t. split; [apply silent_segment | apply failing_segment]. Qed.
+Print Assumptions C13_segments.
